@@ -249,9 +249,9 @@ struct Spec {
     light: bool,         // long request: fewer repeats in thorough
 }
 
-const SMALL_SHAPES: [&str; 17] = [
-    "empty", "single", "single-missing", "dup:2", "dup:17", "all", "rev", "shuffled", "first:39", "cycle:41", "spellings", "miss-first:40", "miss-middle:40", "miss-last:40", "miss-every:12",
-    "miss-alt:40", "miss-dup:40",
+const SMALL_SHAPES: [&str; 20] = [
+    "empty", "single", "single-missing", "dup:2", "dup:17", "alt2:40", "pairs:40", "few3:64", "all", "rev", "shuffled", "first:39", "cycle:41", "spellings", "miss-first:40", "miss-middle:40",
+    "miss-last:40", "miss-every:12", "miss-alt:40", "miss-dup:40",
 ];
 
 fn plan(thorough: bool) -> Vec<Spec> {
@@ -291,7 +291,11 @@ fn plan(thorough: bool) -> Vec<Spec> {
         ("S", "cycle:5001"), ("S", "miss-middle:5001"),
     ];
     for (fix, shape) in long_shapes {
-        for bat in BATCHES {
+        for (bi, bat) in BATCHES.into_iter().enumerate() {
+            // quick: the 5001-name requests (about 40 % of the quick wall time) take every other batch size: 1, 9, 11, N
+            if !thorough && shape.ends_with(":5001") && bi % 2 == 1 {
+                continue;
+            }
             for skip in [false, true] {
                 for t in some_threads(1) {
                     v.push(Spec { api: Api::Ewc, fix, threads: t, bat, shape, skip, light: true });
@@ -325,7 +329,7 @@ fn plan(thorough: bool) -> Vec<Spec> {
         }
     }
     // D. ParallelArchive::extract_files_batched
-    for shape in ["all", "first:39", "cycle:41", "shuffled", "dup:17", "single", "empty", "miss-first:40", "miss-middle:40", "miss-last:40", "first:20", "cycle:100"] {
+    for shape in ["all", "first:39", "cycle:41", "shuffled", "dup:17", "alt2:40", "pairs:40", "single", "empty", "miss-first:40", "miss-middle:40", "miss-last:40", "first:20", "cycle:100"] {
         for bat in BATCHES {
             for t in some_threads(2) {
                 v.push(Spec { api: Api::Efb, fix: "S", threads: t, bat, shape, skip: false, light: false });
@@ -347,7 +351,7 @@ fn plan(thorough: bool) -> Vec<Spec> {
         }
     }
     // F. ParallelArchive::process_files_parallel
-    for shape in ["empty", "single", "dup:17", "all", "shuffled", "cycle:41", "miss-first:40", "miss-middle:40", "miss-last:40", "spellings"] {
+    for shape in ["empty", "single", "dup:17", "alt2:40", "pairs:40", "few3:64", "all", "shuffled", "cycle:41", "miss-first:40", "miss-middle:40", "miss-last:40", "spellings"] {
         for &t in &all_threads {
             v.push(Spec { api: Api::Pfp, fix: "S", threads: t, bat: Bat::NA, shape, skip: false, light: false });
         }
@@ -404,6 +408,18 @@ fn build_request(shape: &str, fx: &Fix, rng: &mut Rng) -> Vec<String> {
         "single" => vec![rng.pick(names).clone()],
         "single-missing" => vec![missing_name(0)],
         "dup" => vec![rng.pick(names).clone(); n],
+        // duplicates in flight at the same time as other names: two names alternating (one of them large), every name
+        // twice in a row, and a long list over three names
+        "alt2" => {
+            let a = names[rng.usize(names.len().min(6))].clone();
+            let b = shuffled.iter().find(|x| **x != a).cloned().unwrap_or_else(|| a.clone());
+            (0..n).map(|i| if i % 2 == 0 { a.clone() } else { b.clone() }).collect()
+        }
+        "pairs" => (0..n).map(|i| shuffled[(i / 2) % shuffled.len()].clone()).collect(),
+        "few3" => {
+            let k = shuffled.len().min(3);
+            (0..n).map(|_| shuffled[rng.usize(k)].clone()).collect()
+        }
         "all" => names.clone(),
         "rev" => names.iter().rev().cloned().collect(),
         "shuffled" => shuffled,
@@ -1149,7 +1165,11 @@ fn main() {
             "request_len": pr.req.len(), "request_head": pr.req.iter().take(4).collect::<Vec<_>>(), "missing_positions_head": missing_pos, "asked_of_each_archive": pr.ask,
             "repeats": if sp.light { repeats_light } else { repeats }});
         let r = if sp.light { repeats_light } else { repeats };
-        run.case(idx, &class, desc, |c| exec(c, sp, &pr, &mut fixes, &mut rng, r, &mut st));
+        run.case(idx, &class, desc, |c| {
+            let t = std::time::Instant::now();
+            exec(c, sp, &pr, &mut fixes, &mut rng, r, &mut st);
+            c.count(&format!("wall_ms|{}|{}", sp.api.name(), pr.path), t.elapsed().as_millis() as u64);
+        });
     }
     stop.store(true, Ordering::Relaxed);
     for h in stress {
